@@ -135,6 +135,14 @@ def random_case(rng, task, n_vocab=None, n_clips=None):
                     {"kind": "ann", "geom": box(base + 20.5, base + 21.5), "ann_tags": _true_tags(rng, vocab, pool)},
                     {"kind": "ann", "geom": box(base + 23.0, base + 24.0), "ann_tags": _true_tags(rng, vocab, pool)},
                 ]
+            if rng.random() < 0.3:
+                # different shapes of one kind that span exactly the same time-frequency box (two calls drawn inside
+                # the same bounding box): equal bounds, unequal geometry
+                base = t + 60.0
+                kind = rng.choice(["Polygon", "LineString", "MultiPoint"])
+                box_ = (base, base + 1.0, 1000.0, 3000.0)
+                clip["events"] += [{"kind": "ann", "geom": geoms.geom_in_box(rng, kind, *box_), "ann_tags": _true_tags(rng, vocab, pool)}]
+                clip["events"] += [{"kind": "pred", "geom": geoms.geom_in_box(rng, kind, *box_), "pred_tags": _pred_tags(rng, vocab, pool), "pred_score": 0.5} for _ in range(rng.choice([2, 3]))]
             rng.shuffle(clip["events"])
         clips.append(clip)
     if not any(c["only"] == "both" for c in clips):
